@@ -1748,3 +1748,76 @@ Proof. intros -> ->. exact refines_spec. Qed.
 
 Example sample_spec_must : In 5 (s_must (sp_run sample_history)) /\ s_bad (sp_run sample_history) = false.
 Proof. vm_compute. split; [left; reflexivity | reflexivity]. Qed.
+
+(* ------------------------------------------------------------------ fuel adequacy of the specification's chain *)
+Lemma filter_length_lt2 {A} (f g : A -> bool) l o :
+  (forall x, g x = true -> f x = true) -> In o l -> f o = true -> g o = false ->
+  length (filter g l) < length (filter f l).
+Proof.
+  intros Hgf. induction l as [|a l IH]; simpl; [tauto|].
+  assert (Hle : length (filter g l) <= length (filter f l)).
+  { clear IH. induction l as [|b l IHl]; simpl; [lia|].
+    destruct (g b) eqn:Eg; [rewrite (Hgf b Eg); simpl; lia | destruct (f b); simpl; lia]. }
+  intros [->|Hin] Hf Hg.
+  - rewrite Hf, Hg. simpl. lia.
+  - specialize (IH Hin Hf Hg).
+    destruct (g a) eqn:Eg; [rewrite (Hgf a Eg); simpl; lia | destruct (f a); simpl; lia].
+Qed.
+
+Definition chain_rem (ids : list id) (alive : id -> bool) (acc : list id) : nat :=
+  length (filter (fun x => alive x && negb (s_in acc x)) (nodup Nat.eq_dec ids)).
+
+Lemma chain_stable ids own alive :
+  (forall x, alive x = true -> In x ids) ->
+  forall f acc o, chain_rem ids alive acc < f ->
+    chain (S f) own acc alive o = chain f own acc alive o.
+Proof.
+  intros Hal. induction f as [|f IH]; intros acc o Hlt; [lia|].
+  cbn [chain]. destruct (s_in acc o || negb (alive o)) eqn:Hstop; [reflexivity|].
+  destruct (own o) as [p|]; [|reflexivity].
+  apply orb_false_iff in Hstop. destruct Hstop as [Hnin Hao]. apply negb_false_iff in Hao.
+  change (chain (S f) own (o :: acc) alive p = chain f own (o :: acc) alive p).
+  apply IH.
+  assert (chain_rem ids alive (o :: acc) < chain_rem ids alive acc).
+  { unfold chain_rem. apply filter_length_lt2 with (o := o).
+    - intros x Hx. apply andb_true_iff in Hx. destruct Hx as [Ha Hn]. rewrite Ha. simpl.
+      apply negb_true_iff in Hn. apply negb_true_iff. unfold s_in in *. simpl in Hn.
+      apply orb_false_iff in Hn. tauto.
+    - apply nodup_In. apply Hal. exact Hao.
+    - rewrite Hao, Hnin. reflexivity.
+    - rewrite Hao. simpl. unfold s_in. simpl. rewrite Nat.eqb_refl. reflexivity. }
+  lia.
+Qed.
+
+Lemma chain_rem_le ids alive acc : chain_rem ids alive acc <= length ids.
+Proof.
+  unfold chain_rem. etransitivity; [apply filter_length_le|].
+  apply NoDup_incl_length; [apply NoDup_nodup|]. intros x Hx. apply nodup_In in Hx. exact Hx.
+Qed.
+
+Lemma sp_ids_info h x : s_info (sp_run h) x <> None -> In x (s_ids (sp_run h)).
+Proof.
+  induction h as [|e h IH] using rev_ind; [intros H; exfalso; apply H; reflexivity|].
+  rewrite sp_run_snoc. set (p := sp_run h) in *. unfold sp_step.
+  destruct (s_torn p); [exact IH|].
+  destruct e as [k isbox o order marks | b [o|] | k o | order marks | | | order]; cbn [s_info s_ids]; try exact IH.
+  - destruct (s_info p o) eqn:Hi; [exact IH|]. cbn [s_info s_ids].
+    destruct (Nat.eqb_spec x o) as [->|Hne]; [intros _; left; reflexivity | intros H; right; apply IH; exact H].
+  - match goal with |- context [if ?c then _ else _] => destruct c end; exact IH.
+  - match goal with |- context [if ?c then _ else _] => destruct c end; exact IH.
+  - match goal with |- context [if ?c then _ else _] => destruct c end; exact IH.
+Qed.
+
+(* the fuel the specification gives its chain is never the reason it stops: any larger fuel
+   yields the same set *)
+Theorem spec_chain_fuel_adequate h o k :
+  let p := sp_run h in
+  chain (S (length (s_ids p)) + k) (s_owned p) (s_must p) (s_live p) o =
+  chain (S (length (s_ids p))) (s_owned p) (s_must p) (s_live p) o.
+Proof.
+  intros p. induction k as [|k IH]; [rewrite Nat.add_0_r; reflexivity|].
+  rewrite <- IH. replace (S (length (s_ids p)) + S k) with (S (S (length (s_ids p)) + k)) by lia.
+  apply chain_stable with (ids := s_ids p).
+  - intros x Hx. apply sp_ids_info. unfold s_live in Hx. fold p. destruct (s_info p x); [discriminate | discriminate].
+  - pose proof (chain_rem_le (s_ids p) (s_live p) (s_must p)). lia.
+Qed.
